@@ -43,6 +43,27 @@ func (t *Tape) next64() uint64 { // splitmix64
 	return z ^ (z >> 31)
 }
 
+// push appends without runtime slice helpers: those are race-instrumented and
+// the tape is used by the scheduler and by simulated threads alternately.
+//
+//go:norace
+func (t *Tape) push(v uint64) {
+	n := len(t.Vals)
+	if n == cap(t.Vals) {
+		nc := 2 * n
+		if nc < 64 {
+			nc = 64
+		}
+		nv := make([]uint64, n, nc)
+		for i := 0; i < n; i++ {
+			nv[i] = t.Vals[i]
+		}
+		t.Vals = nv
+	}
+	t.Vals = t.Vals[:n+1]
+	t.Vals[n] = v
+}
+
 // Draw returns a value in [0,n). n==0 returns 0 without consuming.
 //go:norace
 func (t *Tape) Draw(n int) int {
@@ -58,13 +79,13 @@ func (t *Tape) Draw(n int) int {
 				t.Vals[t.pos] = v
 			}
 		} else {
-			t.Vals = append(t.Vals, 0)
+			t.push(0)
 		}
 		t.pos++
 		return int(v)
 	}
 	v = t.next64() % uint64(n)
-	t.Vals = append(t.Vals, v)
+	t.push(v)
 	t.pos++
 	return int(v)
 }
@@ -144,7 +165,7 @@ func (t *Tape) Force(v, n int) int {
 	if v >= n {
 		v = n - 1
 	}
-	t.Vals = append(t.Vals, uint64(v))
+	t.push(uint64(v))
 	t.pos++
 	return v
 }
